@@ -1,9 +1,15 @@
 package main
 
-import "verifharness/evid"
+import (
+	"verifharness/evid"
+	"verifharness/gen"
+	"verifharness/gen/rt"
+)
 
 type evidWorkerOut = evid.WorkerOut
 
-// placeholders until the generated-parser conformance engine exists
-func genPhase(w *Worker, id string)            {}
-func genReplay(w *Worker, id string, c *GCase) {}
+func tsRunBatch(w *Worker, b *gen.Batch, all []*obs) {}
+func tsExpect(p rt.Result) rt.Result               { return p }
+func c07Corpus(w *Worker, base []*genCase) []*genCase { return base }
+func c17GenJudge(w *Worker, o *obs, variants []string, bad func(kind, variant, in, msg string, detail map[string]interface{})) {
+}
